@@ -20,6 +20,7 @@ package service
 // nothing added to this height - as obligations of its loop; a final "expiration queue empty at this height" is not
 // stated because a batch opened later in the block expires at height + timeout, which needs every queued context to
 // exist with a positive timeout, an invariant over both queues that is not carried through the block)
+//@   by IterateNewRequestBatch#1:inv: inv:inv, req
 //@   by IterateExpiredRequestBatch#1:closed: inv:closed, inv:untouched, inv:done, inv:none_added, inv:pos, inv:todo, inv:inv
 //@   nopanic
 //@ end
